@@ -171,6 +171,8 @@ partial def event (sm : Sim) (ev : String) (nested : Bool := false) : Sim :=
     | ["dial", plan] => sm.op (.dial (plan.splitOn ","))
     | ["conn", k, r] => (sm.op (.conn (k.toNat?.getD 0) (r == "ok"))).settle
     | ["adv", dt] => (sm.op (.adv (dt.toNat?.getD 0))).settle
+    | "advrx" :: dt :: k :: msgs =>
+      ((sm.op (.adv (dt.toNat?.getD 0))).op (.rx (k.toNat?.getD 0) (.data (msgs.map parseMsg)))).settle
     | ["tick"] => sm.settle
     | ["mark", _] => sm
     | ["hold", a, v] => (sm.op (.hold (a.toNat?.getD 0) (v == "1"))).settle
